@@ -376,7 +376,56 @@ def rule_drop_generic_F(toks):
     return out, fired
 
 
+def rule_subst_seq(toks, table):
+    """ordered list of [pattern-token-texts, replacement-text]; each applied over the whole section"""
+    fired = 0
+    for pat, rep in table:
+        out, i = [], 0
+        while i < len(toks):
+            if [x.text for x in toks[i:i + len(pat)]] == pat:
+                r, _ = rtok.tokenize(rep, "rule")
+                r = [Tok(x.kind, x.text, x.trivia, toks[i].line, "rule") for x in r]
+                if r:
+                    r[0].trivia = toks[i].trivia
+                out.extend(r)
+                i += len(pat)
+                fired += 1
+            else:
+                out.append(toks[i])
+                i += 1
+        toks = out
+    return toks, fired
+
+
+def rule_closure_wildcards(toks):
+    """X8: a closure whose parameter is a tuple pattern, `|(k, _)| body`, becomes
+    `|cp__| { let (k, _) = cp__; body }` (Verus accepts only plain variables as closure parameters).
+    The closure must be the last argument of a call (its body ends at the call's closing parenthesis)."""
+    out, fired, i = list(toks), 0, 0
+    while i < len(out):
+        if out[i].text == "|" and i > 0 and out[i - 1].text == "(" and i + 1 < len(out) and out[i + 1].text == "(":
+            call_open = i - 1
+            call_close = rtok.match_close(out, call_open)
+            pat_close = rtok.match_close(out, i + 1)
+            if out[pat_close + 1].text != "|":
+                i += 1
+                continue
+            pattern = out[i + 1:pat_close + 1]
+            body = out[pat_close + 2:call_close]
+            v = T("cp__"); v.trivia = ""
+            bar = T("|"); bar.trivia = ""
+            seq = [out[i], v, bar, T("{"), T("let")] + pattern + [T("="), T("cp__"), T(";")] + body + [T("}")]
+            out[i:call_close] = seq
+            fired += 1
+            i += len(seq)
+            continue
+        i += 1
+    return out, fired
+
+
 RULES = {
+    "subst_seq": lambda toks, st, arg: rule_subst_seq(toks, arg),
+    "closure_wildcards": lambda toks, st, arg: rule_closure_wildcards(toks),
     "drop_attrs": lambda toks, st, arg: rule_drop_attrs(toks),
     "unsafecell": lambda toks, st, arg: rule_unsafecell(toks),
     "root_access": lambda toks, st, arg: rule_root_access(toks),
